@@ -591,6 +591,13 @@ module N =
 
 module Z =
  struct
+  (** val opp : z -> z **)
+
+  let opp = function
+  | Z0 -> Z0
+  | Zpos x0 -> Zneg x0
+  | Zneg x0 -> Zpos x0
+
   (** val eqb : z -> z -> bool **)
 
   let eqb x y =
@@ -610,6 +617,12 @@ module Z =
   let to_N = function
   | Zpos p -> Npos p
   | _ -> N0
+
+  (** val of_N : n -> z **)
+
+  let of_N = function
+  | N0 -> Z0
+  | Npos p -> Zpos p
  end
 
 type 'line exp = { opt : bool; mul0 : bool; mt : ('line -> bool) }
@@ -9526,6 +9539,331 @@ let excluded n0 =
 let persisted_names all readonly_ =
   filter (fun n0 -> (&&) (negb (name_mem n0 readonly_)) (negb (excluded n0)))
     all
+
+(** val pREFIX : n list **)
+
+let pREFIX =
+  (Npos (XO (XI (XI (XI (XI (XI XH))))))) :: ((Npos (XO (XI (XI (XI (XI (XI
+    XH))))))) :: ((Npos (XO (XI (XI (XI (XI (XI XH))))))) :: ((Npos (XO (XI
+    (XI (XI (XI (XI XH))))))) :: ((Npos (XO (XI (XI (XI (XI (XI
+    XH))))))) :: ((Npos (XO (XI (XI (XI (XI (XI XH))))))) :: ((Npos (XO (XI
+    (XI (XI (XI (XI XH))))))) :: ((Npos (XO (XI (XI (XI (XI (XI
+    XH))))))) :: ((Npos (XI (XO (XI (XO (XO (XO XH))))))) :: ((Npos (XO (XO
+    (XO (XI (XI (XO XH))))))) :: ((Npos (XI (XO (XI (XO (XO (XO
+    XH))))))) :: ((Npos (XI (XI (XO (XO (XO (XO XH))))))) :: ((Npos (XO (XO
+    (XI (XO (XO (XO XH))))))) :: ((Npos (XI (XO (XO (XI (XO (XO
+    XH))))))) :: ((Npos (XO (XI (XI (XO (XI (XO XH))))))) :: ((Npos (XI (XO
+    (XO (XI (XO (XO XH))))))) :: ((Npos (XO (XO (XI (XO (XO (XO
+    XH))))))) :: ((Npos (XI (XO (XI (XO (XO (XO XH))))))) :: ((Npos (XO (XI
+    (XO (XO (XI (XO XH))))))) :: ((Npos (XO (XI (XO (XI (XI
+    XH)))))) :: ((Npos (XO (XI (XO (XI (XI XH)))))) :: []))))))))))))))))))))
+
+(** val cOLONS : n list **)
+
+let cOLONS =
+  (Npos (XO (XI (XO (XI (XI XH)))))) :: ((Npos (XO (XI (XO (XI (XI
+    XH)))))) :: [])
+
+(** val starts : n list -> n list -> bool **)
+
+let rec starts p l =
+  match p with
+  | [] -> true
+  | a :: p' ->
+    (match l with
+     | [] -> false
+     | b :: l' -> (&&) (N.eqb a b) (starts p' l'))
+
+(** val find_sub : n list -> n list -> nat option **)
+
+let rec find_sub p l =
+  if starts p l
+  then Some O
+  else (match l with
+        | [] -> None
+        | _ :: r -> option_map (fun x -> S x) (find_sub p r))
+
+(** val strip_nl_rev : n list -> n list **)
+
+let rec strip_nl_rev r = match r with
+| [] -> r
+| n0 :: t ->
+  (match n0 with
+   | N0 -> r
+   | Npos p ->
+     (match p with
+      | XO p0 ->
+        (match p0 with
+         | XI p1 ->
+           (match p1 with
+            | XO p2 -> (match p2 with
+                        | XH -> strip_nl_rev t
+                        | _ -> r)
+            | _ -> r)
+         | _ -> r)
+      | _ -> r))
+
+(** val trim_nl : n list -> n list **)
+
+let trim_nl l =
+  rev (strip_nl_rev (rev l))
+
+(** val is_digit0 : n -> bool **)
+
+let is_digit0 c =
+  (&&) (N.leb (Npos (XO (XO (XO (XO (XI XH)))))) c)
+    (N.leb c (Npos (XI (XO (XO (XI (XI XH)))))))
+
+(** val value : n list -> n **)
+
+let value t =
+  fold_left (fun a c ->
+    N.add (N.mul a (Npos (XO (XI (XO XH)))))
+      (N.sub c (Npos (XO (XO (XO (XO (XI XH)))))))) t N0
+
+(** val all_digits : n list -> bool **)
+
+let all_digits t = match t with
+| [] -> false
+| _ :: _ -> forallb is_digit0 t
+
+(** val parse_usize : n list -> n option **)
+
+let parse_usize t =
+  let d =
+    match t with
+    | [] -> t
+    | n0 :: r ->
+      (match n0 with
+       | N0 -> t
+       | Npos p ->
+         (match p with
+          | XI p0 ->
+            (match p0 with
+             | XI p1 ->
+               (match p1 with
+                | XO p2 ->
+                  (match p2 with
+                   | XI p3 ->
+                     (match p3 with
+                      | XO p4 -> (match p4 with
+                                  | XH -> r
+                                  | _ -> t)
+                      | _ -> t)
+                   | _ -> t)
+                | _ -> t)
+             | _ -> t)
+          | _ -> t))
+  in
+  if (&&) (all_digits d)
+       (N.ltb (value d) (Npos (XO (XO (XO (XO (XO (XO (XO (XO (XO (XO (XO (XO
+         (XO (XO (XO (XO (XO (XO (XO (XO (XO (XO (XO (XO (XO (XO (XO (XO (XO
+         (XO (XO (XO (XO (XO (XO (XO (XO (XO (XO (XO (XO (XO (XO (XO (XO (XO
+         (XO (XO (XO (XO (XO (XO (XO (XO (XO (XO (XO (XO (XO (XO (XO (XO (XO
+         (XO
+         XH))))))))))))))))))))))))))))))))))))))))))))))))))))))))))))))))))
+  then Some (value d)
+  else None
+
+(** val parse_i32 : n list -> z option **)
+
+let parse_i32 t = match t with
+| [] ->
+  if (&&) (all_digits t)
+       (N.ltb (value t) (Npos (XO (XO (XO (XO (XO (XO (XO (XO (XO (XO (XO (XO
+         (XO (XO (XO (XO (XO (XO (XO (XO (XO (XO (XO (XO (XO (XO (XO (XO (XO
+         (XO (XO XH)))))))))))))))))))))))))))))))))
+  then Some (Z.of_N (value t))
+  else None
+| n0 :: r ->
+  (match n0 with
+   | N0 ->
+     if (&&) (all_digits t)
+          (N.ltb (value t) (Npos (XO (XO (XO (XO (XO (XO (XO (XO (XO (XO (XO
+            (XO (XO (XO (XO (XO (XO (XO (XO (XO (XO (XO (XO (XO (XO (XO (XO
+            (XO (XO (XO (XO XH)))))))))))))))))))))))))))))))))
+     then Some (Z.of_N (value t))
+     else None
+   | Npos p ->
+     (match p with
+      | XI p0 ->
+        (match p0 with
+         | XI p1 ->
+           (match p1 with
+            | XO p2 ->
+              (match p2 with
+               | XI p3 ->
+                 (match p3 with
+                  | XO p4 ->
+                    (match p4 with
+                     | XH ->
+                       if (&&) (all_digits r)
+                            (N.ltb (value r) (Npos (XO (XO (XO (XO (XO (XO
+                              (XO (XO (XO (XO (XO (XO (XO (XO (XO (XO (XO (XO
+                              (XO (XO (XO (XO (XO (XO (XO (XO (XO (XO (XO (XO
+                              (XO XH)))))))))))))))))))))))))))))))))
+                       then Some (Z.of_N (value r))
+                       else None
+                     | _ ->
+                       if (&&) (all_digits t)
+                            (N.ltb (value t) (Npos (XO (XO (XO (XO (XO (XO
+                              (XO (XO (XO (XO (XO (XO (XO (XO (XO (XO (XO (XO
+                              (XO (XO (XO (XO (XO (XO (XO (XO (XO (XO (XO (XO
+                              (XO XH)))))))))))))))))))))))))))))))))
+                       then Some (Z.of_N (value t))
+                       else None)
+                  | _ ->
+                    if (&&) (all_digits t)
+                         (N.ltb (value t) (Npos (XO (XO (XO (XO (XO (XO (XO
+                           (XO (XO (XO (XO (XO (XO (XO (XO (XO (XO (XO (XO
+                           (XO (XO (XO (XO (XO (XO (XO (XO (XO (XO (XO (XO
+                           XH)))))))))))))))))))))))))))))))))
+                    then Some (Z.of_N (value t))
+                    else None)
+               | _ ->
+                 if (&&) (all_digits t)
+                      (N.ltb (value t) (Npos (XO (XO (XO (XO (XO (XO (XO (XO
+                        (XO (XO (XO (XO (XO (XO (XO (XO (XO (XO (XO (XO (XO
+                        (XO (XO (XO (XO (XO (XO (XO (XO (XO (XO
+                        XH)))))))))))))))))))))))))))))))))
+                 then Some (Z.of_N (value t))
+                 else None)
+            | _ ->
+              if (&&) (all_digits t)
+                   (N.ltb (value t) (Npos (XO (XO (XO (XO (XO (XO (XO (XO (XO
+                     (XO (XO (XO (XO (XO (XO (XO (XO (XO (XO (XO (XO (XO (XO
+                     (XO (XO (XO (XO (XO (XO (XO (XO
+                     XH)))))))))))))))))))))))))))))))))
+              then Some (Z.of_N (value t))
+              else None)
+         | XO p1 ->
+           (match p1 with
+            | XI p2 ->
+              (match p2 with
+               | XI p3 ->
+                 (match p3 with
+                  | XO p4 ->
+                    (match p4 with
+                     | XH ->
+                       if (&&) (all_digits r)
+                            (N.leb (value r) (Npos (XO (XO (XO (XO (XO (XO
+                              (XO (XO (XO (XO (XO (XO (XO (XO (XO (XO (XO (XO
+                              (XO (XO (XO (XO (XO (XO (XO (XO (XO (XO (XO (XO
+                              (XO XH)))))))))))))))))))))))))))))))))
+                       then Some (Z.opp (Z.of_N (value r)))
+                       else None
+                     | _ ->
+                       if (&&) (all_digits t)
+                            (N.ltb (value t) (Npos (XO (XO (XO (XO (XO (XO
+                              (XO (XO (XO (XO (XO (XO (XO (XO (XO (XO (XO (XO
+                              (XO (XO (XO (XO (XO (XO (XO (XO (XO (XO (XO (XO
+                              (XO XH)))))))))))))))))))))))))))))))))
+                       then Some (Z.of_N (value t))
+                       else None)
+                  | _ ->
+                    if (&&) (all_digits t)
+                         (N.ltb (value t) (Npos (XO (XO (XO (XO (XO (XO (XO
+                           (XO (XO (XO (XO (XO (XO (XO (XO (XO (XO (XO (XO
+                           (XO (XO (XO (XO (XO (XO (XO (XO (XO (XO (XO (XO
+                           XH)))))))))))))))))))))))))))))))))
+                    then Some (Z.of_N (value t))
+                    else None)
+               | _ ->
+                 if (&&) (all_digits t)
+                      (N.ltb (value t) (Npos (XO (XO (XO (XO (XO (XO (XO (XO
+                        (XO (XO (XO (XO (XO (XO (XO (XO (XO (XO (XO (XO (XO
+                        (XO (XO (XO (XO (XO (XO (XO (XO (XO (XO
+                        XH)))))))))))))))))))))))))))))))))
+                 then Some (Z.of_N (value t))
+                 else None)
+            | _ ->
+              if (&&) (all_digits t)
+                   (N.ltb (value t) (Npos (XO (XO (XO (XO (XO (XO (XO (XO (XO
+                     (XO (XO (XO (XO (XO (XO (XO (XO (XO (XO (XO (XO (XO (XO
+                     (XO (XO (XO (XO (XO (XO (XO (XO
+                     XH)))))))))))))))))))))))))))))))))
+              then Some (Z.of_N (value t))
+              else None)
+         | XH ->
+           if (&&) (all_digits t)
+                (N.ltb (value t) (Npos (XO (XO (XO (XO (XO (XO (XO (XO (XO
+                  (XO (XO (XO (XO (XO (XO (XO (XO (XO (XO (XO (XO (XO (XO (XO
+                  (XO (XO (XO (XO (XO (XO (XO
+                  XH)))))))))))))))))))))))))))))))))
+           then Some (Z.of_N (value t))
+           else None)
+      | _ ->
+        if (&&) (all_digits t)
+             (N.ltb (value t) (Npos (XO (XO (XO (XO (XO (XO (XO (XO (XO (XO
+               (XO (XO (XO (XO (XO (XO (XO (XO (XO (XO (XO (XO (XO (XO (XO
+               (XO (XO (XO (XO (XO (XO XH)))))))))))))))))))))))))))))))))
+        then Some (Z.of_N (value t))
+        else None))
+
+type dsearch =
+| NotFound
+| Found of n list * n * z
+| Bad
+
+(** val parse_divider : n list -> dsearch **)
+
+let parse_divider line =
+  let line0 = trim_nl line in
+  (match find_sub pREFIX line0 with
+   | Some i ->
+     let rest = skipn (add i (length pREFIX)) line0 in
+     (match find_sub cOLONS rest with
+      | Some j ->
+        let rest2 = skipn (add j (S (S O))) rest in
+        (match find_sub cOLONS rest2 with
+         | Some k ->
+           (match parse_usize (firstn k rest2) with
+            | Some n0 ->
+              (match parse_i32 (skipn (add k (S (S O))) rest2) with
+               | Some c -> Found ((firstn i line0), n0, c)
+               | None -> Bad)
+            | None -> Bad)
+         | None -> Bad)
+      | None -> Bad)
+   | None -> NotFound)
+
+(** val iterate : n list list -> n list -> n -> (n list * z) list option **)
+
+let rec iterate lines buffer expected0 =
+  match lines with
+  | [] -> Some []
+  | l :: r ->
+    (match parse_divider l with
+     | NotFound -> iterate r (app buffer l) expected0
+     | Found (prefix, idx, code) ->
+       if N.eqb idx expected0
+       then (match iterate r [] (N.add expected0 (Npos XH)) with
+             | Some rest -> Some (((app buffer prefix), code) :: rest)
+             | None -> None)
+       else None
+     | Bad -> None)
+
+(** val split_outputs : n list -> (n list * z) list option **)
+
+let split_outputs stream =
+  iterate (split_lines stream) [] N0
+
+(** val divider_line : n list -> n -> z -> n list **)
+
+let divider_line salt i code =
+  app pREFIX
+    (app salt
+      (app cOLONS
+        (app (dec i)
+          (app cOLONS (app (decz code) ((Npos (XO (XI (XO XH)))) :: []))))))
+
+(** val ideal : n list -> n -> (n list * z) list -> n list **)
+
+let rec ideal salt i = function
+| [] -> []
+| p0 :: r ->
+  let (p, c) = p0 in
+  app p (app (divider_line salt i c) (ideal salt (N.add i (Npos XH)) r))
 
 (** val make_exp : bool -> bool -> (nat -> bool) -> nat exp **)
 
